@@ -2392,6 +2392,8 @@ class CreateQueryBuilder:
         :return:
             CreateQueryBuilder.
         """
+        if not columns:
+            return  # type:ignore[return-value]  # (no columns, no constraint: UNIQUE () is not a statement)
         self._uniques = self._uniques + [[self._constraint_column(column) for column in columns]]
 
     @builder
